@@ -4,6 +4,7 @@ This module provides request handler classes for processing Gemini requests
 and generating responses, including Titan upload handlers.
 """
 
+import os
 from abc import ABC, abstractmethod
 from pathlib import Path
 from typing import TYPE_CHECKING
@@ -380,16 +381,23 @@ class FileUploadHandler(UploadHandler):
 
         # 5. Validate path (path traversal protection)
         target = (self.upload_dir / request.path.lstrip("/")).resolve()
-        if not self._is_safe_path(target):
+        if not self._is_safe_path(target) or target == self.upload_dir:
             return GeminiResponse(
                 status=StatusCode.BAD_REQUEST.value,
                 meta="Invalid path",
             )
 
-        # 6. Save file
+        # 6. Save file: write next to the target and rename over it, so that a
+        # failed write never damages an existing file
+        temp = target.with_name(f".{target.name}.{os.getpid()}.upload")
         try:
             target.parent.mkdir(parents=True, exist_ok=True)
-            target.write_bytes(request.content)
+            try:
+                temp.write_bytes(request.content)
+                os.replace(temp, target)
+            except BaseException:
+                temp.unlink(missing_ok=True)
+                raise
 
             return GeminiResponse(
                 status=StatusCode.SUCCESS.value,
